@@ -783,10 +783,21 @@ func childDecoders(from, stride int, seed uint64, tier string) {
 	if stride < 1 {
 		stride = 1
 	}
+	skipped := map[string]bool{}
+	for _, rd := range strings.Split(os.Getenv("C15_SKIP_READERS"), ",") {
+		if rd != "" {
+			skipped[rd] = true
+		}
+	}
 	for i := from; i < len(cs); i += stride {
 		c := cs[i]
 		fmt.Fprintf(out, "BEGIN %d\n", i)
 		out.Flush()
+		if skipped[c.reader] {
+			fmt.Fprintf(out, "END %d %d 0 0 0 skipped\n", i, ckHang)
+			out.Flush()
+			continue
+		}
 		var peak uint64
 		stop := make(chan struct{})
 		go func() {
@@ -844,12 +855,23 @@ func runDecoders(dir string, seed uint64, tier string) error {
 	const workers = 4
 	var mu sync.Mutex
 	restarts := 0
+	hangsPer := map[string]int{}
 	var firstErr error
 	worker := func(w int) {
 		from := w
 		for from < len(cs) {
 			cmd := exec.Command(os.Args[0], "-child", "decoders", "-from", strconv.Itoa(from), "-stride", strconv.Itoa(workers), "-seed", strconv.FormatUint(seed, 10), "-tier", tier)
-			cmd.Env = append(os.Environ(), "GOTRACEBACK=none", "GOMAXPROCS=2")
+			// a reader that has hung five times already is not run any more (each hang costs a deadline and a restart;
+			// the violation is reported with its first inputs): its remaining cases are counted as skipped
+			mu.Lock()
+			var skip []string
+			for rd, k := range hangsPer {
+				if k >= 5 {
+					skip = append(skip, rd)
+				}
+			}
+			mu.Unlock()
+			cmd.Env = append(os.Environ(), "GOTRACEBACK=none", "GOMAXPROCS=2", "C15_SKIP_READERS="+strings.Join(skip, ","))
 			stdout, err := cmd.StdoutPipe()
 			if err != nil {
 				mu.Lock()
@@ -898,6 +920,11 @@ func runDecoders(dir string, seed uint64, tier string) error {
 							what = f[6]
 						}
 						results[i] = res{cl, ms, mb, alloc, what}
+						if cl == ckHang && what != "skipped" {
+							mu.Lock()
+							hangsPer[cs[i].reader]++
+							mu.Unlock()
+						}
 						current = -1
 						from = i + workers
 					case "DONE":
@@ -1002,6 +1029,9 @@ func runDecoders(dir string, seed uint64, tier string) error {
 		if c.reader == "ImageConfiguration.Load" && (c.kind == "include-self" || c.kind == "include-self-relative" || c.kind == "include-cycle-2" || c.kind == "include-cycle-3") && r.class == ckOk {
 			j, _ := json.Marshal(map[string]any{"reader": c.reader, "kind": c.kind, "what": "a configuration whose include chain leads back to itself was loaded without an error"})
 			fmt.Printf("IMPL-VIOLATION tag=include-cycle-accepted-ImageConfiguration.Load %s\n", j)
+		}
+		if r.what == "skipped" {
+			continue
 		}
 		if (r.class == ckPanic && !strings.HasPrefix(r.what, "process died")) || r.class == ckHang {
 			tag := "panic-" + c.reader + "/" + panicKind(r.what, c.data)
